@@ -33,6 +33,7 @@ fn main() {
         "schema-record" => parse::record_schema(&args),
         "docs-trace" => parse::docs_trace(&args),
         "api-replay" => api::replay(&args),
+        "api-record" => api::record(&args),
         "c11-rewrite" => rewrite::c11(&args),
         "c06-algebra" => rewrite::c06(&args),
         "c05-repeat" => rewrite::c05(&args),
